@@ -96,10 +96,12 @@ def nonObjectKind : Backend → DescKind
   | .hlsl => hlslNonObjectKind
   | .msl => mslNonObjectKind
 
-/-- does `assign_api_bindings` give the declaration an api slot (only then is it reflected) -/
+/-- does `assign_api_bindings` give the declaration an api slot (only then is it reflected); since fix 774c0b4 an
+    object kind without a register class (`get_register_type() = None`: `RayDesc`, `RayQuery`, `TriangleStream`, the
+    mips views) is not a resource and takes no slot on any target - before, DirectX panicked there -/
 def hasSlot (p : Params) : Shape → Bool
   | .cbuffer => true
-  | .object _ arr ss => !(ss && !p.staticSamplersHaveSlots) && arr != .unsized
+  | .object k arr ss => (registerType k).isSome && !(ss && !p.staticSamplersHaveSlots) && arr != .unsized
   | .plain _ => false
 
 /-- `descriptor_count` of `analyse_bindings`: one array layer peeled -/
